@@ -139,7 +139,7 @@ def run_check(prop, tier, seed, runs=None, workers=None, wall_cap=None):
         replay = res.get("replay")
         first = res["violations"][0]
         n_viol += 1
-        klass = replay["class"] if replay else first["oracle"]
+        klass = replay["class"] if replay else ([tok for tok in first["oracle"].split() if tok.startswith(prop)] or [first["oracle"]])[0]
         if klass in seen_classes and len(violation_lines) >= 3:
             continue
         seen_classes.add(klass)
